@@ -756,9 +756,10 @@ def _hybrid_member_listed_twice(sub, spec, clause, detail) -> bool:
     if "unordered_protoclusters" not in (detail.get("result_classes") or []):
         return False
     where = detail.get("where", "")
-    if clause == "areas_sets_differs":
-        return where.startswith("members_listed_twice")
-    if "areas_sets" not in (detail.get("upstream") or []) or "protoclusters" in (detail.get("upstream") or []):
+    upstream = detail.get("upstream") or []
+    if clause == "candidate_member_repeats_differs":
+        return "areas_sets" not in upstream and "protoclusters" not in upstream
+    if "candidate_member_repeats" not in upstream or "areas_sets" in upstream or "protoclusters" in upstream:
         return False
     if clause == "areas_differs":
         return where.startswith("candidates[].") or where.startswith("regions[].detection_rules")
